@@ -97,6 +97,20 @@ class Ctx:
                              "complete": not r.timed_out})
         return r
 
+    def inductive(self, module, spec_dir, timeout=600):
+        """Unbounded safety of a specification by an inductive invariant (Apalache).  A failed obligation means the
+        *specification* (or the invariant) is wrong -- a machinery error, not a code verdict."""
+        from . import apalache
+        try:
+            r = apalache.inductive(module, spec_dir, timeout)
+        except apalache.ApalacheError as e:
+            raise Machinery(str(e))
+        if not (r["base_ok"] and r["step_ok"]):
+            raise Machinery("invariant IndInv of %s is not inductive: %s" % (module, r["detail"]))
+        self.mc_runs.append({"spec": module + " (Apalache, unbounded: Init => IndInv, IndInv /\\ Next => IndInv')", "distinct": 0,
+                             "generated": 0, "depth": 1, "wall_s": r["wall_s"], "mode": "inductive", "complete": True})
+        return r
+
     # ------------------------------------------------------------------ real code
     def drive(self, driver, scenarios, procs=8, hashseed="0", timeout=1800, extra_env=None, chunk=None):
         """Execute scenarios on the real code (fresh interpreter per chunk, PYTHONPATH=<repo>)."""
